@@ -14,6 +14,7 @@ from harness import core
 from oracle import model as M
 
 UUID = "3f2504e0-4f89-41d3-9a0c-0305e82c3301"
+FAKE_TOPLEVEL = {"extension-definition--" + UUID: {"extension_type": "toplevel-property-extension"}}
 
 
 def injections(doc, ver):
@@ -29,6 +30,10 @@ def injections(doc, ver):
         k = d["kind"]
         if k == "embedded" and isinstance(val, dict):
             out.append({"path": list(p) + ["x_custom_prop"], "op": "add", "kind": "custom-property:embedded:" + d["cls"], "value": "v"})
+            if "extensions" not in m.props(d["cls"]):
+                # embedded objects cannot be extended: an 'extensions' member claiming a toplevel-property-extension is custom content
+                out.append({"path": list(p) + ["extensions"], "op": "add", "kind": "fake-toplevel-extension:embedded:" + d["cls"], "value": dict(FAKE_TOPLEVEL),
+                            "also_set": {"foo_bar": 5}})
         elif k == "extensions" and isinstance(val, dict):
             out.append({"path": list(p) + ["x-unknown-ext"], "op": "add", "kind": "unregistered-extension", "value": {"a": 1}})
             if ver == "2.0":   # extension definitions are a 2.1 mechanism; in 2.0 such a key is an unregistered (custom) extension
@@ -58,6 +63,11 @@ def injections(doc, ver):
                     break
     if doc["type"] == "marking-definition" and doc.get("definition_type") == "statement":
         out.append({"path": ["definition_type"], "op": "set", "kind": "unregistered-marking-type", "value": "x-unregistered-marking"})
+    if "extensions" not in m.props(cname):
+        # a type without an 'extensions' property (all of STIX 2.0's SDOs/SROs ...) cannot carry a toplevel-property-extension
+        out.append({"path": ["extensions"], "op": "add", "kind": "fake-toplevel-extension:top", "value": dict(FAKE_TOPLEVEL), "also_set": {"foo_bar": 5}})
+        out.append({"path": ["extensions"], "op": "add", "kind": "fake-toplevel-extension:top:bare-key", "value": {"abc": {"extension_type": "toplevel-property-extension"}},
+                    "also_set": {"foo_bar": 5}})
     if "extensions" in m.props(cname) and "extensions" not in doc:
         out.append({"path": ["extensions"], "op": "add", "kind": "unregistered-extension:only", "value": {"x-unknown-ext": {"a": 1}}})
     return out
